@@ -629,11 +629,13 @@ func (ctx *RequestContext) File(filepath string) {
 }
 
 func (ctx *RequestContext) FileFromFS(filepath string, fs *FS) {
+	// (SetPath percent-decodes its argument: both the file path and the request path that
+	// is put back afterwards are already what they should be)
 	defer func(old string) {
-		ctx.Request.URI().SetPath(old)
+		ctx.Request.URI().SetPath(strings.ReplaceAll(old, "%", "%25"))
 	}(string(ctx.Request.URI().Path()))
 
-	ctx.Request.URI().SetPath(filepath)
+	ctx.Request.URI().SetPath(strings.ReplaceAll(filepath, "%", "%25"))
 
 	fs.NewRequestHandler()(context.Background(), ctx)
 }
